@@ -22,6 +22,9 @@ var Script func(n int64) int64
 // 0..n-1 when n <= MaxBranch, else the representatives 0, n-1, n/2, 1, n-2 ...
 var MaxBranch = 8
 
+// Reps lists the answers explored for an upper bound n.
+func Reps(n int64) []int64 { return reps(n) }
+
 func reps(n int64) []int64 {
 	if n <= int64(MaxBranch) {
 		out := make([]int64, n)
